@@ -27,7 +27,7 @@ def short(files):
     return {k: v[:12] for k, v in (files or {}).items()} or {"none": ""}
 
 
-def cli_tree(cli, dsl_path, langs, root, with_word=False, timeout=60):
+def cli_tree(cli, dsl_path, langs, root, with_word=False, timeout=240):
     """Run the real CLI with the given targets; return (rc, stdout, {lang: {relpath: sha}})."""
     args = [cli] + (["compile"] if with_word else []) + ["-f", dsl_path]
     for l in langs:
